@@ -48,9 +48,11 @@ def bounded_step_halving(tier, seed):
         for h in (0.5, 0.25, 0.125):
             c = P.Calculator(_config={'max_calc_step_size_feet': h})
             rows[h] = c.fire(shot, P.Unit.Yard(600), P.Unit.Yard(200)).trajectory
-        for i in range(1, len(rows[0.5])):
+        # rows are matched by distance (a result may have one row more or less at its end: C03 findings)
+        byd = {h: {round(r.distance.raw_value, 3): r for r in rows[h]} for h in rows}
+        for i in sorted(set(byd[0.5]) & set(byd[0.25]) & set(byd[0.125]))[1:]:
             for f in ('height', 'windage', 'velocity'):
-                a, b, c2 = [(getattr(rows[h][i], f)).raw_value for h in (0.5, 0.25, 0.125)]
+                a, b, c2 = [(getattr(byd[h][i], f)).raw_value for h in (0.5, 0.25, 0.125)]
                 rinf = 2 * c2 - b
                 cases += 1
                 if abs(a - rinf) > 4 * abs(a - b) + 1e-7 * max(1.0, abs(a)):
